@@ -159,6 +159,27 @@ fn item<C: Suite>(ctx: &mut Ctx, n: u16, t: u16, kind: &str, keyk: &str) {
         }
         ctx.count("reconstructions");
     }
+    // more than t packages, in orders other than ascending: any superset of t shares reconstructs as well
+    if nn > tt && nn <= 300 {
+        for rep in 0..3usize {
+            let k = tt + 1 + p.below(nn - tt);
+            let mut idx = p.subset(nn, k);
+            match rep {
+                0 => idx.reverse(),
+                1 => idx.rotate_left(1),
+                _ => p.shuffle(&mut idx),
+            }
+            let order = ["descending", "rotated", "shuffled"][rep];
+            let kv: Vec<KeyPackage<C>> = idx.iter().map(|i| grp.kps[&grp.ids[*i]].clone()).collect();
+            match C::api_reconstruct(&kv) {
+                Ok(k2) if k2.clone().to_scalar() == key => {}
+                Ok(_) => ctx.viol("t-shares-do-not-reconstruct", "library/more-than-t", d("reconstruct(more than t packages) != key", json!({"subset": idx, "order": order}))),
+                Err(e) => ctx.viol("t-shares-do-not-reconstruct", "library-error/more-than-t", d("reconstruct(more than t packages) failed", json!({"err": format!("{e:?}"), "subset": idx, "order": order}))),
+            }
+            ctx.count("reconstructions");
+            ctx.class(format!("reconstruct/more-than-t/{order}"));
+        }
+    }
     if tt >= 2 {
         for sub in subsets(nn, tt - 1, 6, &mut p) {
             let sx: Vec<_> = sub.iter().map(|i| xs[*i]).collect();
